@@ -5,6 +5,7 @@ SCENARIOS = {
     "book1": dict(module="MC_book1", native=True, frozen=True, quick=120, thorough=1500),
     "admit": dict(module="MC_admit", native=True, frozen=True, quick=120, thorough=1500),
     "auth": dict(module="MC_auth", native=True, frozen=True, quick=120, thorough=1500),
+    "conv2": dict(module="MC_conv2", native=True, frozen=True, quick=120, thorough=1500),
     "cfg": dict(module="MC_cfg", native=True, frozen=True, quick=120, thorough=1500),
     "envchg": dict(module="MC_envchg", native=True, frozen=True, quick=120, thorough=1500, envsteps=True),
     "fee": dict(module="MC_fee", native=True, frozen=True, quick=120, thorough=1500),
@@ -22,26 +23,26 @@ SCENARIOS = {
 # property -> scenarios per tier (model + replay), driver profiles (profile, histories quick, histories thorough, steps)
 PROPS = {
     "C01": dict(quick=["book1", "fee", "frac", "marker", "mig", "envchg"],
-                thorough=["book1", "book2", "fee", "feebig", "feearith", "frac", "marker", "mig", "cfg"],
+                thorough=["book1", "book2", "fee", "feebig", "feearith", "frac", "marker", "mig", "cfg", "conv2", "envchg"],
                 drive=[("mixed", 2, 25, 250), ("fee", 0, 15, 250), ("migrate", 0, 15, 250), ("conv", 0, 10, 250)]),
     "C02": dict(quick=["book1", "fee", "feearith", "auth", "marker", "mig"],
-                thorough=["book1", "fee", "feearith", "feebig", "auth", "marker", "frac", "mig"],
+                thorough=["book1", "fee", "feearith", "feebig", "auth", "marker", "frac", "mig", "conv2"],
                 drive=[("match", 2, 25, 250), ("fee", 0, 15, 250), ("conv", 0, 10, 250)]),
     "C03": dict(quick=["book1", "book2", "frac"], thorough=["book1", "book2", "frac", "fee", "cfg"],
                 drive=[("match", 2, 30, 250), ("mixed", 0, 10, 250)]),
     "C04": dict(quick=["book1", "fee", "feebig", "marker", "mig", "auth"],
-                thorough=["book1", "fee", "feebig", "marker", "auth", "frac", "mig"],
+                thorough=["book1", "fee", "feebig", "marker", "auth", "frac", "mig", "conv2"],
                 drive=[("reverse", 2, 25, 250), ("fee", 0, 15, 250), ("conv", 0, 10, 250)]),
     "C05": dict(quick=["auth", "book2"], thorough=["auth", "book2", "cfg", "mig"], drive=[("mixed", 2, 25, 250), ("modify", 0, 15, 250)]),
     "C06": dict(quick=["book1", "fee", "frac", "marker", "mig", "auth", "envchg"],
-                thorough=["book1", "fee", "feebig", "frac", "marker", "mig", "book2"],
+                thorough=["book1", "fee", "feebig", "frac", "marker", "mig", "auth", "envchg", "book2", "conv2"],
                 drive=[("mixed", 2, 25, 250), ("reverse", 0, 15, 250), ("migrate", 0, 10, 250)]),
     "C07": dict(quick=["admit", "feearith", "book2", "auth", "envchg"], thorough=["admit", "feearith", "book2", "auth", "envchg", "book1", "fee"], drive=[("create", 2, 30, 250), ("fee", 0, 10, 250)]),
-    "C08": dict(quick=["book1", "marker", "admit", "mig"], thorough=["book1", "marker", "admit", "mig", "frac", "envchg"], drive=[("conv", 2, 35, 250)]),
+    "C08": dict(quick=["book1", "marker", "admit", "mig", "conv2"], thorough=["book1", "marker", "admit", "mig", "conv2", "frac", "envchg"], drive=[("conv", 2, 35, 250)]),
     "C09": dict(quick=["fee", "feebig", "feearith", "frac"], thorough=["fee", "feebig", "feearith", "book1", "frac", "mig"],
                 drive=[("fee", 2, 30, 250), ("match", 0, 10, 250)]),
-    "C10": dict(quick=["marker", "envchg"], thorough=["marker", "envchg", "admit"], drive=[("env", 3, 25, 250), ("mixed", 1, 15, 250), ("conv", 0, 15, 250)]),
-    "C11": dict(quick=["book2", "book1", "frac", "admit"], thorough=["book2", "book1", "frac", "admit", "fee"],
+    "C10": dict(quick=["marker", "envchg", "conv2"], thorough=["marker", "envchg", "conv2", "admit"], drive=[("env", 3, 25, 250), ("mixed", 1, 15, 250), ("conv", 0, 15, 250)]),
+    "C11": dict(quick=["book2", "book1", "frac", "admit"], thorough=["book2", "book1", "frac", "admit", "fee", "conv2"],
                 drive=[("mixed", 2, 25, 250), ("match", 0, 15, 250)]),
     "C12": dict(quick=["cfg"], thorough=["cfg"], drive=[("modify", 2, 35, 250)]),
     "C13": dict(quick=["inst", "instbig", "admit", "frac"], thorough=["inst", "instbig", "admit", "frac"],
@@ -50,7 +51,7 @@ PROPS = {
     "C15": dict(quick=["mig", "migarb"], thorough=["mig", "migarb"], drive=[("migrate", 2, 35, 250)]),
     "C16": dict(quick=["book1", "book2", "mig", "inst", "admit"], thorough=["book1", "book2", "mig", "inst", "admit", "frac"], drive=[("mixed", 2, 25, 250), ("migrate", 0, 10, 250)]),
     "C17": dict(quick=["book1", "fee", "marker", "mig", "frac", "admit"],
-                thorough=["book1", "fee", "feearith", "marker", "auth", "mig", "frac"],
+                thorough=["book1", "fee", "feearith", "marker", "auth", "mig", "frac", "admit"],
                 drive=[("mixed", 2, 25, 250), ("match", 0, 10, 250), ("reverse", 0, 10, 250)]),
 }
 
